@@ -142,6 +142,100 @@ func batchScenario(param string) vsched.Scenario {
 	}
 }
 
+// roamScenario: one Shadowsocks 2022 session reaches a dual-stack listener first from an IPv4 address and
+// then, session unchanged, from an IPv6 address.  The size limit of a reply follows the address it is sent
+// to: MTU-28 towards the IPv4 address, MTU-48 towards the IPv6 one.  The target answers "size:N" with N
+// bytes; with MTU 1500 and an IPv4 reply source the packed reply is N+58 bytes, so N=1414 is the largest
+// reply the IPv4 address may get and N=1394 the largest the IPv6 address may get.
+func roamScenario(param string) vsched.Scenario {
+	sp := parseBatchSpec(param)
+	return func() (func(), func(*vsched.Exec) (string, string)) {
+		var (
+			env      *udpenv.Env
+			buildErr error
+			got      []string
+			stopped  bool
+		)
+		body := func() {
+			var err error
+			env, err = udpenv.New(udpenv.Spec{Server: sp.server, Batch: sp.batch, Client: "direct", DualStack: true})
+			if err != nil {
+				buildErr = err
+				return
+			}
+			vudp.Hosts = map[string][]netip.Addr{}
+			target := env.NewTarget(1)
+			if err := env.Start(context.Background()); err != nil {
+				buildErr = err
+				return
+			}
+			var tg vsched.Group
+			tg.Go(target.Serve)
+			c := env.NewClient(0, 0)
+			dst := conn.AddrFromIPPort(target.Addr)
+			recv := func() {
+				_, pl, err := c.Recv(0)
+				switch {
+				case err != nil:
+					got = append(got, "error: "+err.Error())
+				case len(pl) > 0 && pl[0] == 'R':
+					got = append(got, fmt.Sprintf("R*%d", len(pl)))
+				default:
+					got = append(got, string(pl))
+				}
+			}
+			c.Send(dst, []byte("size:1414"))
+			recv()
+			c.RebindV6()
+			c.Send(dst, []byte("size:1394"))
+			recv()
+			c.Send(dst, []byte("size:1395")) // one byte too many for the IPv6 address: must be refused
+			c.Send(dst, []byte("size:1414")) // fits the old address only: must be refused
+			c.Send(dst, []byte("d-sentinel"))
+			recv()
+			c.Close()
+			env.Stop()
+			stopped = true
+			target.Close()
+			tg.Wait()
+			vudp.Finish()
+		}
+		check := func(e *vsched.Exec) (string, string) {
+			obs := fmt.Sprintf("got=%q stopped=%v", got, stopped)
+			if env != nil {
+				obs = env.Canon(obs)
+			}
+			if buildErr != nil {
+				return obs, "harness: cannot build/start services: " + buildErr.Error()
+			}
+			if len(e.Panics) > 0 {
+				return obs, "panic: " + env.Canon(e.Panics[0])
+			}
+			if e.Deadlock || e.HorizonHit {
+				return obs, "a reply that fits never arrived (or the run did not terminate): " + env.Canon(strings.Join(e.Blocked, " "))
+			}
+			want := []string{"R*1414", "R*1394", "echo:d-sentinel"}
+			for i, g := range got {
+				if i >= len(want) || g != want[i] {
+					if strings.HasPrefix(g, "R*") && i == 2 {
+						return obs, "a reply larger than the limit of the IPv6 address it was sent to (MTU-48) was delivered after the client moved from IPv4 to IPv6: " + g
+					}
+					return obs, fmt.Sprintf("reply %d is %s, want %s", i, env.Canon(g), want[min(i, len(want)-1)])
+				}
+			}
+			if len(got) != len(want) {
+				return obs, fmt.Sprintf("%d replies, want %d", len(got), len(want))
+			}
+			return obs, ""
+		}
+		return body, check
+	}
+}
+
+func roamFamily() []string {
+	return []string{batchSpec{"ss2022", "no"}.String(), batchSpec{"ss2022", "sendmmsg"}.String(), batchSpec{"ss2022mu", "no"}.String(), batchSpec{"ss2022mu", "sendmmsg"}.String()}
+}
+
 func batchFamily() []string {
 	var out []string
 	for _, sv := range []string{"none", "socks5", "ss2022", "direct"} {
@@ -163,6 +257,7 @@ func registerBatch() {
 	}
 	harness.NoEarlyClock = true // timer orders are not part of this property
 	harness.Register("relaybatch", batchScenario)
+	harness.Register("relayroam", roamScenario)
 }
 
 // runBatchPart explores part D and folds its results into the check.
@@ -177,7 +272,15 @@ func runBatchPart(c *harness.Check) (execs int64, steps int64) {
 		}
 		c.AddExploration("relaybatch", r.Param, r.Stats, harness.Confirm(batchScenario(r.Param)))
 	}
-	c.Part("D-relay-batch", map[string]any{"scenarios": len(params), "executions": execs, "scheduling_steps": steps, "distinct_observations": len(obsAll),
+	for _, r := range harness.ExploreBatch("relayroam", roamFamily(), harness.Pick(c, 1, 2), harness.Pick(c, 60*time.Second, 10*time.Minute), true) {
+		execs += int64(r.Stats.Execs)
+		steps += int64(r.Stats.Steps)
+		for o := range r.Stats.Observations {
+			obsAll[r.Param+"|roam|"+o] = true
+		}
+		c.AddExploration("relayroam", r.Param, r.Stats, harness.Confirm(roamScenario(r.Param)))
+	}
+	c.Part("D-relay-batch", map[string]any{"scenarios": len(params) + len(roamFamily()), "executions": execs, "scheduling_steps": steps, "distinct_observations": len(obsAll),
 		"what": "real relay service under the controlled scheduler; the target answers each of 3 datagrams with a 1480-byte datagram that cannot fit followed by the echo; every interleaving within the delay bound of target sends, downlink batch receives/sends and client reads"})
 	return
 }
